@@ -44,7 +44,7 @@ if not ok:
 slug = sys.argv[2] if len(sys.argv) > 2 else "agent"
 dst = "/verif/seeded/%s-%s" % (cid, slug)
 if prefix != "seed":
-    dst = "/verif/seeded/%s-%s-%s" % (cid, {"seed2": "r2", "seed3": "r3", "seed4": "r4", "seed5": "r5"}.get(prefix, prefix), slug)
+    dst = "/verif/seeded/%s-%s-%s" % (cid, {"seed2": "r2", "seed3": "r3", "seed4": "r4", "seed5": "r5", "seed6": "r6"}.get(prefix, prefix), slug)
 os.makedirs(dst, exist_ok=True)
 shutil.copy(wt + "/SEED/patch.diff", dst + "/patch.diff")
 if demo and os.path.exists(os.path.join(wt, demo)):
